@@ -377,7 +377,7 @@ pub fn scenarios(tier: Tier) -> (Vec<Scenario>, Limits, String) {
     let vals = vec![Val::Arr(vec![5]), Val::Arr(vec![]), Val::Arr(vec![1, 2]), Val::FailEnc, Val::PartialFail];
     let (max_vals, lim) = match tier {
         Tier::Quick => (2, Limits { p: 1, e: 1, d: 2, z: 1, b: 3 }),
-        Tier::Thorough => (3, Limits { p: 2, e: 2, d: 2, z: 1, b: 4 }),
+        Tier::Thorough => (2, Limits { p: 2, e: 2, d: 2, z: 1, b: 4 }),
     };
     let mut seqs: Vec<Vec<Val>> = vec![vec![]];
     let mut all: Vec<Vec<Val>> = vec![vec![]];
